@@ -461,6 +461,18 @@ func childMain(mode string) {
 		sp := tars.NewServantProxy(app.NewCommunicator(), "Verif.C20.Obj@tcp -h 127.0.0.1 -p 1 -t 1000")
 		_ = sp.TarsInvoke(context.Background(), 0, "f", nil, nil, nil, &requestf.ResponsePacket{})
 		os.Exit(9)
+	case "panic-in-run-init":
+		// the panic comes from inside tars.Run itself: the configured log directory cannot be
+		// created, so the application's initialisation panics; Run flushes the loggers on its way
+		// out, whatever the reason it stops
+		confPath := out + ".conf"
+		_ = os.WriteFile(confPath, []byte("<tars>\n<application>\n<client>\nmodulename=Verif.C20Run\n</client>\n<server>\napp=Verif\nserver=C20Run\nlogpath=/dev/null/c20-run-logs\nlogLevel=DEBUG\n</server>\n</application>\n</tars>\n"), 0o644)
+		tars.ServerConfigPath = confPath
+		for i := 0; i < k; i++ {
+			l.WriteLog([]byte(fmt.Sprintf("<T0-g0-%d>\n", i)))
+		}
+		tars.Run()
+		os.Exit(9) // Run should have died of the panic in its initialisation
 	case "panic-in-dispatch":
 		// the panic comes from a servant's dispatcher, through the real Protocol.Invoke: that is
 		// where a server's panics really come from
@@ -635,7 +647,7 @@ func main() {
 	// child processes
 	idx := 0
 	for rep := 0; rep < run.Pick(2, 12); rep++ {
-		for _, mode := range []string{"flush", "panic-string", "panic-error", "panic-struct", "panic-runtime", "panic-string+nodump", "panic-in-dispatch", "panic-in-client-call"} {
+		for _, mode := range []string{"flush", "panic-string", "panic-error", "panic-struct", "panic-runtime", "panic-string+nodump", "panic-in-dispatch", "panic-in-client-call", "panic-in-run-init"} {
 			idx++
 			warm := 0
 			if mode == "flush" || rep%2 == 1 {
